@@ -36,37 +36,86 @@ Proof.
   change (-1) with (fst (-1, 0%Q)) at 1. apply map_nth.
 Qed.
 
-(* the rule as documented: one unit, in the bin of an actual neighbour of
-   positive weight - PROVIDED some neighbour has positive weight *)
-Lemma rand_update_spec : forall i cJ nb u buf,
-  (length nb <= 8)%nat -> Forall (fun p => (0 <= snd p)%Q) nb ->
-  (0 < qsum (map snd nb))%Q -> (0 <= u)%Q -> (u < 1)%Q ->
-  exists p, In p nb /\ (0 < snd p)%Q /\
-            rand_updates i cJ nb u (new_buf nb buf) = [(fst p + cJ * i, 1%Q)].
+(* the rule as documented: nothing when no buffered neighbour has positive
+   weight; otherwise one unit in the bin of an actual neighbour of positive
+   weight, whatever the stale part of the buffer holds *)
+Lemma rand_sumW_eq : forall nb, rand_sumW nb = qsum (map snd nb).
+Proof. reflexivity. Qed.
+
+Lemma rand_skip_spec : forall s, gen_rand_skip s = true <-> ~ (0 < s)%Q.
 Proof.
-  intros i cJ nb u buf H8 Hw Hs Hu0 Hu1. unfold rand_updates.
-  assert (Es : rand_sumW nb = qsum (map snd nb)) by reflexivity.
-  rewrite Es. unfold gen_rand_draw.
-  set (S := qsum (map snd nb)) in *.
-  assert (D0 : (0 <= S * u)%Q) by (apply Qmult_le_0_compat; lra).
-  assert (D1 : (S * u < 0 + S)%Q).
-  { setoid_replace (0 + S)%Q with (S * 1)%Q by ring. apply Qmult_lt_l; assumption. }
-  assert (Hw' : Forall (fun w => (0 <= w)%Q) (map snd nb)).
-  { apply Forall_forall. intros w Hin. apply in_map_iff in Hin. destruct Hin as (p & <- & Hp).
-    rewrite Forall_forall in Hw. apply Hw. exact Hp. }
-  destruct (rand_pick_spec (map snd nb) 0%Q (S * u)%Q 0 Hw' D0 D1) as (m & Hm & Hp & Hn).
-  rewrite map_length in Hm. rewrite Hp.
-  exists (nth m nb (-1, 0%Q)). split; [apply nth_In; exact Hm|]. split.
-  - change 0%Q with (snd (-1, 0%Q)) in Hn at 2. rewrite map_nth in Hn. exact Hn.
-  - unfold gen_rand_index, gen_rand_incr. cbn [inject_Z].
-    replace (Z.to_nat (0 + Z.of_nat m)) with m by lia.
-    rewrite new_buf_nth by assumption. reflexivity.
+  intros s. unfold gen_rand_skip. change (0 # 1)%Q with 0%Q. rewrite negb_true_iff. split.
+  - intros E. apply qltb_false in E. lra.
+  - intros E. apply qltb_false. lra.
 Qed.
 
-(* ------------------------------------------------------------------ counterexamples (finding)
-   target row of 4 voxels padded to 6x3x3; cex_J a b c d has these four values *)
-Definition cex_J (a b c d : Z) : list Z :=
-  repeat (-1) 13 ++ [a] ++ repeat (-1) 8 ++ [b] ++ repeat (-1) 8 ++ [c] ++ repeat (-1) 8 ++ [d] ++ repeat (-1) 13.
-Definition cex_v0 := mkvox 0 (1 # 2) 0 0.     (* between target voxels 0 and 1 *)
-Definition cex_v1 := mkvox 1 2 0 0.           (* exactly on target voxel 2 *)
-Definition cex_buf0 : list Z := [5; 5; 5; 5; 5; 5; 5; 5].
+Lemma rand_update_spec : forall i cJ nb u buf,
+  (length nb <= 8)%nat -> Forall (fun p => (0 <= snd p)%Q) nb -> (0 <= u)%Q -> (u < 1)%Q ->
+  (~ (0 < qsum (map snd nb))%Q /\ rand_updates i cJ nb u (new_buf nb buf) = []) \/
+  ((0 < qsum (map snd nb))%Q /\
+   exists p, In p nb /\ (0 < snd p)%Q /\
+             rand_updates i cJ nb u (new_buf nb buf) = [(fst p + cJ * i, 1%Q)]).
+Proof.
+  intros i cJ nb u buf H8 Hw Hu0 Hu1. unfold rand_updates. rewrite rand_sumW_eq.
+  destruct (gen_rand_skip (qsum (map snd nb))) eqn:Sk.
+  - left. split; [now apply rand_skip_spec|reflexivity].
+  - right. assert (Hs : (0 < qsum (map snd nb))%Q).
+    { destruct (Qlt_le_dec 0 (qsum (map snd nb))) as [L|L]; [exact L|].
+      assert (K : gen_rand_skip (qsum (map snd nb)) = true) by (apply rand_skip_spec; lra). congruence. }
+    split; [exact Hs|]. unfold gen_rand_draw.
+    set (S := qsum (map snd nb)) in *.
+    assert (D0 : (0 <= S * u)%Q) by (apply Qmult_le_0_compat; lra).
+    assert (D1 : (S * u < 0 + S)%Q).
+    { setoid_replace (0 + S)%Q with (S * 1)%Q by ring. apply Qmult_lt_l; assumption. }
+    assert (Hw' : Forall (fun w => (0 <= w)%Q) (map snd nb)).
+    { apply Forall_forall. intros w Hin. apply in_map_iff in Hin. destruct Hin as (p & <- & Hp).
+      rewrite Forall_forall in Hw. apply Hw. exact Hp. }
+    destruct (rand_pick_spec (map snd nb) 0%Q (S * u)%Q 0 Hw' D0 D1) as (m & Hm & Hp & Hn).
+    rewrite map_length in Hm. rewrite Hp.
+    exists (nth m nb (-1, 0%Q)). split; [apply nth_In; exact Hm|]. split.
+    + change 0%Q with (snd (-1, 0%Q)) in Hn at 2. rewrite map_nth in Hn. exact Hn.
+    + unfold gen_rand_index, gen_rand_incr. cbn [inject_Z].
+      replace (Z.to_nat (0 + Z.of_nat m)) with m by lia.
+      rewrite new_buf_nth by assumption. reflexivity.
+Qed.
+
+(* one voxel of the interp<0 loop, for ALL inputs: either H is untouched, or
+   exactly one in-range bin (row vi, column = value of a positive-weight
+   neighbour) gains one unit and every other bin is unchanged *)
+Lemma rand_step_spec : forall J d0 d1 d2 cI cJ H buf u us v,
+  wfJ J cJ -> 0 <= cJ -> vi v < cI -> length H = Z.to_nat (cI * cJ) ->
+  (0 <= u)%Q -> (u < 1)%Q ->
+  let st' := rand_step J d0 d1 d2 cJ (H, buf, u :: us) v in
+  let H' := fst (fst st') in
+  (H' = H /\ snd st' = u :: us /\
+   (vox_inside d0 d1 d2 v = false \/ ~ (0 < qsum (map snd (neigh J d0 d1 d2 v)))%Q)) \/
+  (vox_inside d0 d1 d2 v = true /\ snd st' = us /\
+   exists p, In p (neigh J d0 d1 d2 v) /\ (0 < snd p)%Q /\
+     let k := fst p + cJ * vi v in
+     0 <= fst p < cJ /\ 0 <= k < cI * cJ /\ H' = add_at k 1%Q H /\
+     (getq H' k == getq H k + 1)%Q /\ (forall m, 0 <= m -> m <> k -> getq H' m = getq H m) /\
+     (qsum H' == qsum H + 1)%Q).
+Proof.
+  intros J d0 d1 d2 cI cJ H buf u us v HJ Hc Hi HL Hu0 Hu1. cbv zeta. unfold rand_step.
+  destruct (vox_inside d0 d1 d2 v) eqn:Hin; [|left; cbn; auto].
+  pose proof (neigh_ok J d0 d1 d2 cJ v HJ Hc Hin) as Hnb.
+  assert (Hw : Forall (fun p : Z * Q => (0 <= snd p)%Q) (neigh J d0 d1 d2 v)).
+  { eapply Forall_impl; [|exact Hnb]. intros p [_ Hp]. exact Hp. }
+  destruct (rand_update_spec (vi v) cJ (neigh J d0 d1 d2 v) u buf (neigh_length J d0 d1 d2 v) Hw Hu0 Hu1)
+    as [[Hz E] | [Hs (p & Hp & Hpos & E)]].
+  - left. rewrite rand_sumW_eq. replace (gen_rand_skip (qsum (map snd (neigh J d0 d1 d2 v)))) with true
+      by (symmetry; now apply rand_skip_spec). cbn. auto.
+  - right. rewrite rand_sumW_eq.
+    replace (gen_rand_skip (qsum (map snd (neigh J d0 d1 d2 v)))) with false.
+    2:{ symmetry. destruct (gen_rand_skip (qsum (map snd (neigh J d0 d1 d2 v)))) eqn:K; [|reflexivity].
+        apply rand_skip_spec in K. contradiction. }
+    rewrite E. cbn [fst snd apply_updates fold_left]. split; [reflexivity|]. split; [reflexivity|].
+    exists p. split; [exact Hp|]. split; [exact Hpos|].
+    rewrite Forall_forall in Hnb. destruct (Hnb p Hp) as [Hj _].
+    destruct (inside_coords _ _ _ _ Hin) as (Hi0 & _).
+    assert (Hk : 0 <= fst p + cJ * vi v < cI * cJ) by (apply hist_index_in_bounds; lia).
+    assert (HkL : 0 <= fst p + cJ * vi v < Z.of_nat (length H)).
+    { rewrite HL. assert (0 <= cI * cJ) by (apply Z.mul_nonneg_nonneg; lia). lia. }
+    split; [exact Hj|]. split; [exact Hk|]. split; [reflexivity|]. split; [now apply add_at_get_same|].
+    split; [intros m Hm Hne; apply add_at_get_other; [exact Hm|congruence]|now apply add_at_sum].
+Qed.
